@@ -22,7 +22,10 @@ type Context struct {
 	// when the child dies.
 	parentCtx *Context
 	children  *safemap.SafeMap[string, *PID]
-	context   context.Context
+	// children that are being cleaned up. They can have left the children
+	// map already: their id was spawned again before they finished.
+	leaving *safemap.SafeMap[*process, struct{}]
+	context context.Context
 }
 
 func newContext(ctx context.Context, e *Engine, pid *PID) *Context {
@@ -31,6 +34,7 @@ func newContext(ctx context.Context, e *Engine, pid *PID) *Context {
 		engine:   e,
 		pid:      pid,
 		children: safemap.New[string, *PID](),
+		leaving:  safemap.New[*process, struct{}](),
 	}
 }
 
